@@ -618,6 +618,29 @@ func runAuth(accounts map[string]string, setHeader func(*http.Request)) (string,
 			break
 		}
 	}
+	// the gated route reached by a re-dispatch: a middleware of another route rewrites the path and hands the context to
+	// Router.HandleContext (and then simply returns).  The gate decides as for the direct request and the protected
+	// handler runs exactly as often (0 or 1 times).
+	{
+		r4 := rux.New()
+		runs := 0
+		r4.GET("/p", func(c *rux.Context) { runs++ }, handlers.HTTPBasicAuth(accounts))
+		r4.GET("/fwd", func(c *rux.Context) {}, func(c *rux.Context) {
+			c.Req.URL.Path = "/p"
+			c.Router().HandleContext(c)
+		})
+		rq := httptest.NewRequest("GET", "/fwd", nil)
+		setHeader(rq)
+		w4 := httptest.NewRecorder()
+		r4.ServeHTTP(w4, rq)
+		want := 0
+		if ran {
+			want = 1
+		}
+		if runs != want || (!ran && w4.Code != w.Code) {
+			oracle = append(oracle, fmt.Sprintf("C20 basic auth: reached through HandleContext the gated handler ran %d times with status %d; asked directly ran=%v status=%d", runs, w4.Code, ran, w.Code))
+		}
+	}
 	// the account list is the caller's map: a gate that was built on an empty map which the application fills afterwards
 	// (accounts loaded at start-up, after the routes were declared) gives the verdict of the filled list
 	if len(accounts) > 0 {
